@@ -35,7 +35,9 @@ def restore_clock(saved):
 
 
 def mk_frame(filename, func, line, f_locals, back=None, f_globals=None):
-    code = types.SimpleNamespace(co_filename=filename, co_name=func)
+    # (a code object as far as the agent may look at one: names of the locals, no closure variables)
+    code = types.SimpleNamespace(co_filename=filename, co_name=func, co_varnames=tuple(f_locals or ()), co_freevars=(), co_cellvars=(),
+                                 co_firstlineno=max(1, line - 1), co_argcount=0, co_flags=0)
     return types.SimpleNamespace(f_code=code, f_lineno=line, f_locals=f_locals, f_back=back,
                                  f_globals=f_globals if f_globals is not None else {})
 
